@@ -50,7 +50,7 @@ def write_nifti(path, array, affine=None, slope=None, inter=None):
     import nibabel as nib
     if affine is None:
         affine = np.eye(4)
-    img = nib.Nifti1Image(array, affine)
+    img = nib.Nifti1Image(array, affine, dtype=array.dtype)
     img.header.set_data_dtype(array.dtype)
     if slope is not None:
         img.header.set_slope_inter(slope, inter if inter is not None else 0.0)
